@@ -151,11 +151,13 @@ theorem strict_priority_waiting (cfg : Cfg) (tbl : List Nat) (ops : List Op) (pr
     (hsorted : (cfg.queues.map (fun x => x.1)).Pairwise (fun a b => a < b))
     (hsess : (run (init cfg tbl) ops).sessions = pre ++ q :: post)
     (curj : Option Cur) (hfree : q.slots[j]? = some curj) (hav : Avail (run (init cfg tbl) ops) now curj)
-    (hfind : findNext (run (init cfg tbl) ops) q.prio now (run (init cfg tbl) ops).queue = some t) :
+    (hfind : findNext (run (init cfg tbl) ops) q.prio now (run (init cfg tbl) ops).queue = some t)
+    (hnf : NoFaultOps ops) :
     (read (run (init cfg tbl) ops) now ticks).2 ≠ Out.none ∧
     ∀ p t i b, (read (run (init cfg tbl) ops) now ticks).2 = Out.pkt p t i b → p ≤ q.prio := by
   obtain ⟨h1, h2⟩ := read_wait cfg tbl ops pre post q j t now ticks hsorted hsess curj hfree hav hfind
     (fun u _ g hg _ hw => stale_run cfg tbl ops g (getF_mem hg) hw)
+    (fun u _ g hg _ => faultfree_run cfg tbl ops hnf u g hg)
   exact ⟨h1, fun p t i b e => prio_le_of_sorted cfg tbl ops pre post q hsorted hsess p (h2 p t i b e)⟩
 
 /-- `q` has something READY at `now`: a transfer in one of its slots whose next packet is due, or an available slot
@@ -179,12 +181,12 @@ theorem strict_priority (cfg : Cfg) (tbl : List Nat) (ops : List Op) (pre post :
     (now : Nat) (ticks : List (Nat × Nat))
     (hsorted : (cfg.queues.map (fun x => x.1)).Pairwise (fun a b => a < b))
     (hsess : (run (init cfg tbl) ops).sessions = pre ++ q :: post)
-    (hready : Ready (run (init cfg tbl) ops) q now) :
+    (hready : Ready (run (init cfg tbl) ops) q now) (hnf : NoFaultOps ops) :
     (read (run (init cfg tbl) ops) now ticks).2 ≠ Out.none ∧
     ∀ p t i b, (read (run (init cfg tbl) ops) now ticks).2 = Out.pkt p t i b → p ≤ q.prio := by
   rcases hready with ⟨j, c, f, h1, h2, h3, h4, h5⟩ | ⟨j, t, curj, h1, h2, h3⟩
   · exact strict_priority_in_progress cfg tbl ops pre post q j c f now ticks hsorted hsess h1 h2 h3 h4 h5
-  · exact strict_priority_waiting cfg tbl ops pre post q j t now ticks hsorted hsess curj h1 h2 h3
+  · exact strict_priority_waiting cfg tbl ops pre post q j t now ticks hsorted hsess curj h1 h2 h3 hnf
 
 /-- Work conservation (contrapositive of `strict_priority`, the liveness-flavoured reading): after every operation
     history, `read(now)` returns `None` ONLY IF no priority queue has anything ready at `now` - every transfer in a
@@ -195,9 +197,9 @@ theorem idle_only_when_nothing_ready (cfg : Cfg) (tbl : List Nat) (ops : List Op
     (now : Nat) (ticks : List (Nat × Nat))
     (hsorted : (cfg.queues.map (fun x => x.1)).Pairwise (fun a b => a < b))
     (hsess : (run (init cfg tbl) ops).sessions = pre ++ q :: post)
-    (hnone : (read (run (init cfg tbl) ops) now ticks).2 = Out.none) :
+    (hnone : (read (run (init cfg tbl) ops) now ticks).2 = Out.none) (hnf : NoFaultOps ops) :
     ¬ Ready (run (init cfg tbl) ops) q now :=
-  fun hr => (strict_priority cfg tbl ops pre post q now ticks hsorted hsess hr).1 hnone
+  fun hr => (strict_priority cfg tbl ops pre post q now ticks hsorted hsess hr hnf).1 hnone
 
 /-- Round robin inside one priority queue, for one call of `read_priority_queue` (`readQueue`, the function `read`
     runs on every queue, with `steps = number of slots`): let slot `j` hold a transfer `c` in progress whose next
